@@ -138,6 +138,12 @@ type startupEnv struct {
 	vnow    time.Duration
 	t0      time.Time
 	scale   int64 // parinit: real = virtual / scale
+	// parinit: close `fired` when fan watchFan has logged its watchN-th event of kind watchKind
+	watchFan  int
+	watchKind string
+	watchN    int
+	watchCnt  int
+	fired     chan struct{}
 }
 
 func startupPairsToMap(p [][2]int) map[int]int {
@@ -174,6 +180,13 @@ func (e *startupEnv) log(fan int, kind string, val int, op string) int {
 		rst = d.restoring > 0
 	}
 	e.events = append(e.events, startupEv{Seq: e.seq, Fan: fan, Kind: kind, Val: val, Op: op, Rst: rst})
+	if e.fired != nil && fan == e.watchFan && kind == e.watchKind {
+		e.watchCnt++
+		if e.watchCnt == e.watchN {
+			close(e.fired)
+			e.fired = nil
+		}
+	}
 	return e.seq
 }
 
